@@ -25,6 +25,29 @@ var prefixHeads = []string{"lisp:function", "lisp:expr", "quote", "lisp:quote", 
 
 var prefixOperands = []string{"a", "a:b", ":k", "1", "2.0", `"s\t"`, "()", "(a)", "(a b)", "[a]", "(a (b))", "'a", "#'a"}
 
+// prefixOperandShapes: the operand-shape sub-space.  The printer may only
+// re-sugar (lisp:expr X) / (lisp:function X) when the READER accepts the
+// shorthand for that X, and the reader's rule looks INSIDE X (an unbound
+// expression may not hold an unquoted nested expression, whatever quoting X
+// itself carries): every operand is a quoting prefix (none, ', '', #', #^) on a
+// body from atoms, flat lists, lists holding an unquoted / quoted / bracketed /
+// empty list, in both bracket kinds.
+func prefixOperandShapes() []string {
+	quotes := []string{"", "'", "''", "#'", "#^"}
+	bodies := []string{"a", "()", "(a)", "(a b)", "(a (b))", "((a) b)", "(a ())", "((x 1) (y 2))", "(a '(b))", "(a [b])", "(a 'b)", "(a #'b)",
+		"[a]", "[(a)]", "[a (b)]", "[(a) (b)]", "[a [b]]", "[]"}
+	var out []string
+	for _, q := range quotes {
+		for _, b := range bodies {
+			if (q == "#'" || q == "#^") && b != "a" && b != "(a)" && b != "(a b)" {
+				continue // the shorthand itself is only accepted over these
+			}
+			out = append(out, q+b)
+		}
+	}
+	return out
+}
+
 var prefixOpens = []string{"()", "[]"}
 
 var prefixContexts = []string{"F", "'F", "(a F b)", "[F]", "'(a F)", "(a\n  F ; z\n  b)"}
